@@ -1,5 +1,5 @@
 From Coq Require Import ZArith List.
-From PV Require Import Base.U64 C10.C10_Model C10.C10_Proofs C10.C10_ProofsLoop C10.C10_ProofsTop C10.C10_Engine C10.C10_ProofsEngine C10.C10_ProofsRearm.
+From PV Require Import Base.U64 C10.C10_Model C10.C10_Proofs C10.C10_ProofsLoop C10.C10_ProofsTop C10.C10_Engine C10.C10_ProofsEngine C10.C10_ProofsRearm C10.C10_ProofsAgree C10.C10_ProofsAgree2 C10.C10_ProofsAgree3.
 Import ListNotations.
 Local Open Scope Z_scope.
 
@@ -73,3 +73,8 @@ Theorem no_cross_talk_same_fd : forall fd d m s e0,
   kfind fd (kn_list (s_k (snd r))) = Some (mkkent fd (Z.lor (translate (m - d)) EPOLLONESHOT) true).
 Proof. exact rm_one_direction_rearms_others_lemma. Qed.
 Print Assumptions no_cross_talk_same_fd.
+
+Theorem engine_kernel_agree : forall steps,
+  guarded steps init_st -> engine_kernel_agree_at (run_engine steps).
+Proof. exact engine_kernel_agree_lemma. Qed.
+Print Assumptions engine_kernel_agree.
